@@ -170,6 +170,15 @@ public:
                     if (pn == nullptr) {
                         //ti->store_root_ptr(nullptr);
                         // remain empty deleted root node.
+                        /**
+                         * This node may have become the root only just now: an interior parent
+                         * that lost its other child promotes this node even if it is already
+                         * unlinked from the leaf chain. As the root border it is the only leaf, so
+                         * it must not keep the links to its former, deleted siblings: it will be
+                         * reused by the next insert.
+                         */
+                        set_next(nullptr);
+                        set_prev(nullptr);
                         ti->root_unlock();
                         version_unlock();
                         return;
